@@ -1,5 +1,6 @@
 import SpoxModel.Lemmas.Types
 import SpoxModel.Generated.Dtypes
+import SpoxModel.Generated.TypeOverrides
 /-!
 # C13 — types are canonical; compatibility and broadcasting are exact and sound
 
@@ -222,8 +223,47 @@ theorem canBroadcast_false_only_if_impossible (a : Shape) (o : ShapeArg) (sa sb 
   apply broadcast_raises_only_if_impossible a o.resolve sa sb _ ha hb
   simpa [canBroadcast, broadcastArg] using h
 
+/-- The rank of a static broadcast of shapes of known rank is the larger rank (numpy's), and unknown
+    rank results only from an operand of unknown rank. -/
+theorem broadcast_rank (a b : Shape) (c : Shape) (h : broadcast a b = some c) :
+    c.maybeRank = (a.maybeRank.bind fun ra => b.maybeRank.map fun rb => max ra rb) := by
+  cases a with
+  | none => simp [broadcast] at h; subst h; simp [Shape.maybeRank]
+  | some xa =>
+    cases b with
+    | none => simp [broadcast] at h; subst h; simp [Shape.maybeRank]
+    | some xb =>
+      cases c with
+      | none =>
+        simp only [broadcast] at h
+        split at h <;> simp at h
+      | some xc => simp [Shape.maybeRank, Types.broadcast_rank xa xb xc h]
+
 /-- **Both operand orders give the same answer.** -/
 theorem broadcast_comm (a b : Shape) : broadcast a b = broadcast b a := Types.broadcast_comm a b
+
+/-! ## What the model covers (tie G: inventory of the type layer's classes and deciding methods) -/
+
+/-- Obligation: the classes deriving from `Type` / `Natural` / `Shape` anywhere under `src/spox`, their
+    bases and dataclass decorators (equality and hash are the generated field-wise ones: no class defines
+    `__eq__` / `__hash__`), and the methods among those that decide compatibility, broadcasting and the
+    ONNX forms which each class defines, are exactly the ones `Model/Types.lean` describes. A new
+    subclass, override, decorator change or unparsable file fails this whatever inputs are generated. -/
+theorem type_layer_inventory :
+    Generated.TypeOverrides.classes.map (fun c => (c.name, c.bases, c.decorators, c.methods)) =
+      [("Constant", ["Natural"], ["dataclass(frozen=True)"], ["__le__", "to_simple"]),
+       ("Natural", [], ["dataclass(frozen=True)"],
+          ["__le__", "from_onnx", "from_simple", "simple_from_onnx", "simple_to_onnx", "to_onnx", "to_simple"]),
+       ("Shape", [], ["dataclass(frozen=True)"],
+          ["__bool__", "__getitem__", "__le__", "broadcast", "can_broadcast", "from_onnx", "from_simple",
+           "maybe_rank", "rank", "to_onnx", "to_simple"]),
+       ("Unknown", ["Natural"], ["dataclass(frozen=True)"], ["__le__", "to_simple"]),
+       ("Optional", ["Type"], ["dataclass(frozen=True)"], ["_subtype", "_to_onnx"]),
+       ("Sequence", ["Type"], ["dataclass(frozen=True)"], ["_subtype", "_to_onnx"]),
+       ("Tensor", ["Type"], ["dataclass(frozen=True)"], ["__init__", "_subtype", "_to_onnx", "dtype", "shape"]),
+       ("Type", [], ["dataclass(frozen=True)"], ["_from_onnx", "_subtype", "_to_onnx"])]
+    ∧ Generated.TypeOverrides.functions.map (·.1) = ["_broadcast_elem"]
+    ∧ Generated.TypeOverrides.opaqueFiles = [] := by decide +kernel
 
 /-! ## Non-vacuity -/
 
